@@ -5,10 +5,10 @@ CONSTANTS
   Topics = {1}
   MaxTime = 3
   Dues = {0, 2}
-  Ttls = {0}
+  Ttls = {0, 1}
   MaxTag = 3
   ConsCfg <- CfgN1
-
+  ExpiryAtHandover <- TrueC
 VIEW NoHist
 INVARIANT Conservation
 INVARIANT TagmapSound
@@ -21,7 +21,7 @@ INVARIANT AbsConservation
 INVARIANT AbsOneHolder
 INVARIANT AbsNorderSound
 INVARIANT DueIsVisible
-PROPERTY RefinesButTtl
+PROPERTY Refines
 PROPERTY AbsNeverEarly
 PROPERTY AbsNotDroppedWhileLive
 PROPERTY AbsAckRemoves
